@@ -370,6 +370,7 @@ class Ctx:
         return obs
 
     def judge(self, name, root, obs, consts, timeout=1800):
+        timeout = timeout if self.quick else timeout * 3
         v, r = judge(self.sub("judge_" + name), root, obs, consts, timeout=timeout)
         log("[judge] %s: %d verdict lines, %d records/states %.1fs" % (name, len(v), r.distinct, r.wall))
         return v
